@@ -106,6 +106,71 @@ def exhaustive_small():
             "(bin && (paren (bin < %s %s)) (paren (bin > %s (var d))))" % (a, b, c), "(new Foo (bin < %s %s) (bin > %s (var d)))" % (a, b, c)]
     return out
 
+def syntax_matrix():
+    """statement, declaration and annotated-member forms of the documented grammar (docs/grammar.md, docs/bloch_class_system.md,
+    docs/language/annotations.md), each type in each position: (name, source, expected output lines)"""
+    out = []
+    LIT = {"int": "3", "long": "4L", "float": "1.5f", "bit": "1b", "boolean": "true", "char": "'c'", "string": "\"s\""}
+    BOX = ("class Box<T> { public T v; public constructor(T v) -> Box<T> { this.v = v; } public function get() -> T { return this.v; } }\n"
+           "class Pair<A, B> { public A a; public B b; public constructor(A a, B b) -> Pair<A, B> { this.a = a; this.b = b; } }\n"
+           "class K { public int id = 7; public constructor() -> K { } }\n")
+    positions = [("function start", "function main() -> void { %s echo(\"m\"); }"),
+                 ("after a statement", "function main() -> void { echo(\"a\"); %s echo(\"m\"); }"),
+                 ("nested block", "function main() -> void { { %s } echo(\"m\"); }"),
+                 ("if block", "function main() -> void { if (true) { %s } echo(\"m\"); }"),
+                 ("for body", "function main() -> void { for (int i = 0; i < 1; i = i + 1) { %s } echo(\"m\"); }"),
+                 ("while body", "function main() -> void { int n = 1; while (n > 0) { %s n = n - 1; } echo(\"m\"); }"),
+                 ("method body", "class H { public constructor() -> H { } public function go() -> void { %s } }\nfunction main() -> void { H h = new H(); h.go(); echo(\"m\"); }"),
+                 ("constructor body", "class H { public constructor() -> H { %s } }\nfunction main() -> void { H h = new H(); echo(\"m\"); }")]
+    decls = []
+    for t, lit in LIT.items():
+        decls.append(("%s local" % t, "%s v = %s;" % (t, lit)))
+        decls.append(("final %s local" % t, "final %s v = %s;" % (t, lit)))
+        if t != "boolean":
+            decls.append(("%s[] literal" % t, "%s[] v = {%s, %s};" % (t, lit, lit)))
+            decls.append(("%s[2] sized" % t, "%s[2] v;" % t))
+        decls.append(("Box<%s> local" % t, "Box<%s> v = new Box<%s>(%s);" % (t, t, lit)))
+        decls.append(("Pair<int, %s> local" % t, "Pair<int, %s> v = new Pair<int, %s>(1, %s);" % (t, t, lit)))
+        decls.append(("Pair<%s, K> local" % t, "Pair<%s, K> v = new Pair<%s, K>(%s, new K());" % (t, t, lit)))
+        decls.append(("Box<Box<%s>> local" % t, "Box<Box<%s>> v = new Box<Box<%s>>(new Box<%s>(%s));" % (t, t, t, lit)))
+    decls += [("class local", "K v = new K();"), ("null class local", "K v = null;"), ("Box<K> local", "Box<K> v = new Box<K>(new K());"),
+              ("qubit local", "qubit v;"), ("qubit register", "qubit[2] v;"), ("qubit multi-declarator", "qubit v, w, u;"),
+              ("tracked qubit", "@tracked qubit v;"), ("tracked register", "@tracked qubit[2] v;"), ("tracked multi-declarator", "@tracked qubit v, w;")]
+    for dn, d in decls:
+        for pn, pos in positions:
+            if ("qubit" in d) and pn in ("method body", "constructor body"):
+                continue
+            marks = (["a"] if pn == "after a statement" else []) + ["m"]
+            out.append(("%s / %s" % (dn, pn), BOX + pos % (d + " echo(\"d\");"), [marks[0]] + ["d"] + marks[1:] if pn == "after a statement" else ["d", "m"]))
+    # for-initialisers of the documented primitive types, final, expression initialiser, empty
+    for t, lit in (("int", "0"), ("float", "0.5f"), ("char", "'a'"), ("string", "\"\""), ("bit", "0b")):
+        out.append(("for (%s ...)" % t, "function main() -> void { int n = 0; for (%s v = %s; n < 2; n = n + 1) { echo(\"b\"); } echo(\"m\"); }" % (t, lit), ["b", "b", "m"]))
+    out.append(("for (final int ...)", "function main() -> void { int n = 0; for (final int v = 1; n < 1; n = n + v) { echo(\"b\"); } echo(\"m\"); }", ["b", "m"]))
+    out.append(("for (expression; ...)", "function main() -> void { int n = 5; for (n = 0; n < 1; n = n + 1) { echo(\"b\"); } echo(\"m\"); }", ["b", "m"]))
+    out.append(("for (; ...)", "function main() -> void { int n = 0; for (; n < 1; n = n + 1) { echo(\"b\"); } echo(\"m\"); }", ["b", "m"]))
+    out.append(("for (qubit ...)", "function main() -> void { int n = 0; for (qubit v; n < 1; n = n + 1) { echo(\"b\"); } echo(\"m\"); }", ["b", "m"]))
+    # the conditional statement on every kind of condition
+    for cn, pre, cond in (("comparison", "int a = 1;", "a < 2"), ("parenthesised", "int a = 1;", "(a < 2)"), ("logical", "boolean a = true;", "a && !false || false"),
+                          ("bit", "bit a = 1b;", "a"), ("call", "", "yes()"), ("measurement", "qubit q; x(q);", "measure q"),
+                          ("parenthesised measurement", "qubit q; x(q);", "(measure q)"), ("equality of a parenthesised measurement", "qubit q; x(q);", "(measure q) == 1b")):
+        out.append(("conditional statement on a %s" % cn,
+                    "function yes() -> boolean { return true; }\nfunction main() -> void { %s %s ? echo(\"t\"); : echo(\"f\"); echo(\"m\"); }" % (pre, cond), ["t", "m"]))
+    out.append(("nested conditional statements", "function main() -> void { int a = 1; a < 2 ? a < 1 ? echo(\"x\"); : echo(\"t\"); : echo(\"f\"); echo(\"m\"); }", ["t", "m"]))
+    out.append(("measure statement then conditional", "function main() -> void { qubit q; measure q; qubit r; x(r); measure r ? echo(\"t\"); : echo(\"f\"); echo(\"m\"); }", ["t", "m"]))
+    # annotated class members
+    for mn, mem, call in (("@quantum method", "@quantum public function m() -> bit { qubit a; x(a); return measure a; }", "echo(o.m());"),
+                          ("public @quantum method (annotation after the modifiers)", "public @quantum function m() -> bit { qubit a; x(a); return measure a; }", "echo(o.m());"),
+                          ("@quantum static method", "@quantum public static function m() -> bit { qubit a; x(a); return measure a; }", "echo(Q.m());"),
+                          ("@quantum void method", "@quantum public function m() -> void { qubit a; x(a); echo(1b); }", "o.m();"),
+                          ("@quantum bit[] method", "@quantum public function m() -> bit[] { bit[] r = {1b}; return r; }", "bit[] r = o.m(); echo(r[0]);"),
+                          ("@tracked field", "@tracked public qubit f; public function m() -> bit { x(this.f); return measure this.f; }", "echo(o.m());"),
+                          ("@tracked register field", "@tracked public qubit[2] f; public function m() -> bit { x(this.f[1]); return measure this.f[1]; }", "echo(o.m());")):
+        out.append((mn, "class Q { public constructor() -> Q { } %s }\nfunction main() -> void { Q o = new Q(); %s echo(\"m\"); }" % (mem, call), ["1", "m"]))
+    out.append(("@quantum function", "@quantum function m() -> bit { qubit a; x(a); return measure a; }\nfunction main() -> void { echo(m()); echo(\"m\"); }", ["1", "m"]))
+    out.append(("@shots on main", "@shots(1) function main() -> void { echo(\"m\"); }", ["m"]))
+    return out
+
+
 def strip_parens(sx):
     prev = None
     while prev != sx:
@@ -162,11 +227,31 @@ def run(chk):
             payload = {"tree": r["tree"], "source": "echo(%s);" % src, "expected_tree": r["expect"], "parsed": c,
                        "how": "parse `function main() -> void { echo(<source>); }` and dump the echo argument (drv_front: expr <hex>)"}
             chk.report("c14-roundtrip", payload, "render-then-parse gives a different tree for `%s`" % src[:80])
+    # statements, declarations and annotated members: accepted, and run to the expected marks
+    from checks import langcommon as lcm
+    sm = syntax_matrix()
+    sres = lcm.run_impl([x[1] for x in sm], opts="draws=0.5,0.5,0.5,0.5,0.5,0.5")
+    sbad = 0
+    for (name, src, want), r in zip(sm, sres):
+        got = (r.get("stdout") or "").split("\n")[:-1] if r.get("stdout") else []
+        if r.get("status") != "ok" or got != want:
+            sbad += 1
+            chk.report("c14-form", {"form": name, "source": src, "expected_output": want,
+                                    "implementation": {k: r.get(k) for k in ("status", "cat", "line", "col", "msg", "stdout")},
+                                    "how": "run /repo's bloch on the source"},
+                       "documented form `%s` is not accepted as written (or does not run to its marks): %s %s"
+                       % (name, r.get("status"), (r.get("msg") or r.get("stdout") or "")[:100]))
+    chk.cov["statement_and_member_forms"] = len(sm)
+    chk.cov["statement_and_member_form_failures"] = sbad
     chk.sample({"tree": recs[3]["tree"], "source": bytes.fromhex(recs[3]["src_hex"]).decode("latin-1"), "parsed": lc[3]})
     chk.sample({"tree": recs[-1]["tree"], "source": bytes.fromhex(recs[-1]["src_hex"]).decode("latin-1"), "parsed": lc[-1][:400]})
     chk.cov.update({"traces_validated_against_impl": len(recs), "exhaustive_small_trees": n_ex, "roundtrip_failures": bad,
-                    "disagreements": bad + model_bad,
+                    "disagreements": bad + model_bad + sbad,
                     "rule": "every ordered pair of binary operators in both nestings, every prefix/postfix/cast/measure/call/index/member/assignment "
                             "combination at size 3, plus random trees up to size 12 over all expression forms (with and without redundant parentheses); "
                             "each tree gets the minimal parentheses from the extracted add_parens, is rendered by the extracted render, parsed by the "
-                            "real parser inside echo(...), dumped, and compared node for node"})
+                            "real parser inside echo(...), dumped, and compared node for node. Statement level: a matrix of declaration forms (every primitive, "
+                            "array, class, generic and nested generic type, final, qubit registers, multi-declarators, @tracked) x positions (function start, after a "
+                            "statement, nested block, if / for / while body, method and constructor body), for-initialisers of every documented type, the conditional "
+                            "statement on every kind of condition (incl. a measurement), annotated class members (@quantum methods in every modifier order, @tracked "
+                            "fields): each must be accepted and run to its expected marks"})
